@@ -816,6 +816,21 @@ def boundary_cases():
         head + "struct Foo:\n  0 [+1] UInt n\n  1 [+n] UInt x\n  let y = x + 1\n",
         head + "struct Foo:\n  0 [+1] UInt n\n  1 [+n] UInt x\n  let y = x * 2\n",
         head + "struct Foo:\n  0 [+1] UInt n\n  1 [+n] UInt x\n  let y = $upper_bound(x)\n",
+        head + "struct Foo:\n  0 [+1] UInt n\n  1 [+n] UInt x\n  let y = $upper_bound(x) * 2\n",
+        head + "struct Foo:\n  0 [+1] UInt n\n  1 [+n] Int x\n  let y = $lower_bound(x) * 2\n",
+        head + "struct Foo:\n  0 [+1] UInt n\n  1 [+n] UInt x\n  0 [+1] UInt z\n  let y = $upper_bound(x) + z\n",
+        head + "struct Foo:\n  0 [+1] UInt n\n  1 [+n] UInt x\n  let y = $upper_bound(x) - $upper_bound(x)\n",
+        head + "struct Foo:\n  0 [+1] UInt n\n  1 [+n] UInt x\n  0 [+1] UInt z\n  let y = z > 3 ? $upper_bound(x) : z\n",
+        head + "struct Foo:\n  0 [+1] UInt z\n  let y = $upper_bound(3) == 3\n",
+        head + "struct Foo:\n  0 [+1] UInt z\n  let y = $lower_bound(z) + $upper_bound(z)\n",
+        head + "struct Foo(p: UInt:8):\n  let y = $present(p)\n",
+        head + "struct Foo:\n  0 [+2000] UInt x\n  let y = x\n",
+        head + "struct Foo:\n  0 [+1] UInt n\n  1 [+n] UInt x\n  2 [+x] UInt y\n",
+        "[enum_case: foo]\n", "struct Foo:\n  [requires: $next == 1]\n  0 [+1] UInt x\n",
+        "struct Foo:\n  let y = (1 < true) ? 1 : 2\n", "struct Foo(p: UInt[]):\n  0 [+p] UInt a\n",
+        "enum Ee:\n  [is_signed: 1 == 1]\n  CC = 3\n", "enum Ee:\n  AA = 1\nstruct Foo:\n  0 [+y] UInt x\n  let y = -Ee.AA\n",
+        head + "struct Foo(q: UInt:64):\n  q [+2] UInt f\n", 'import "nope.emb" as n\n',
+        "enum Foo:\n  AA = $upper_bound(2)\n",
         head + "struct Foo:\n  0 [+1] UInt n\n  1 [+n] UInt x\n  let y = $upper_bound(x) + 2\n",
         head + "struct Foo:\n  0 [+1] UInt n\n  1 [+n] UInt x\n  let y = $max(x, 1)\n",
         head + "struct Foo:\n  0 [+1] UInt n\n  1 [+n] UInt x\n  let y = x == 1\n",
@@ -948,7 +963,32 @@ GENERATORS = [("bytes", gen_bytes, 6), ("soup", gen_soup, 8), ("grammar", gen_gr
               ("sem", gen_sem, 36), ("nest", gen_nest, 3), ("mutate", gen_mutate, 18), ("imports", gen_imports, 7)]
 
 
+class _Huge:
+    """Narrow predicate of the open finding: a constant field size `[+N]` with N >= 10**6."""
+    _rx = re.compile(r"\[\+\s*\(*\s*([0-9][0-9_]*)")
+
+    def search(self, text):
+        for m in self._rx.finditer(text):
+            if int(m.group(1).replace("_", "")) >= 10 ** 6:
+                return m
+        return None
+
+
+HUGE = _HUGE = _Huge()
+
+
 def pick(r):
+    """One generated case.  Inputs matching the narrow predicate of the open finding
+    `timeout:constant-field-size>=10^6` (a constant field size >= 10^6) are regenerated: each
+    costs a full time-out and the pinned input of the finding is re-run on every check."""
+    for _ in range(20):
+        c = _pick(r)
+        if not any(_HUGE.search(t) for t in c["files"].values()):
+            return c
+    return c
+
+
+def _pick(r):
     total = sum(w for _, _, w in GENERATORS)
     x = r.randrange(total)
     for name, g, w in GENERATORS:
